@@ -213,6 +213,10 @@ func (p *Program) buildSpecPrelude() (err error) {
 	sb.WriteString("(declare-fun zeros (Int) (Seq Int))\n")
 	sb.WriteString("(assert (forall ((n Int)) (! (=> (>= n 0) (= (seq.len (zeros n)) n)) :pattern ((zeros n)))))\n")
 	sb.WriteString("(assert (forall ((n Int) (k Int)) (! (=> (and (<= 0 k) (< k n)) (= (seq.nth (zeros n) k) 0)) :pattern ((seq.nth (zeros n) k)))))\n")
+	// ints(h, s): the elements of an integer slice s as a sequence, read from the heap h of its element kind
+	sb.WriteString("(declare-fun ints ((Array Loc Int) Slice) (Seq Int))\n")
+	sb.WriteString("(assert (forall ((h (Array Loc Int)) (s Slice)) (! (=> (>= (s_len s) 0) (= (seq.len (ints h s)) (s_len s))) :pattern ((ints h s)))))\n")
+	sb.WriteString("(assert (forall ((h (Array Loc Int)) (s Slice) (k Int)) (! (=> (and (<= 0 k) (< k (s_len s))) (= (seq.nth (ints h s) k) (select h (elm (s_arr s) (+ (s_off s) k))))) :pattern ((seq.nth (ints h s) k)))))\n")
 	g := &Gen{prog: p, u: p.u, declared: map[string]bool{}}
 	sig := func(f *SpecFun) (string, string) {
 		var ps, as []string
@@ -298,6 +302,7 @@ func (p *Program) buildSpecPrelude() (err error) {
 	{
 		var cb strings.Builder
 		cb.WriteString("(define-fun-rec zeros ((n Int)) (Seq Int) (ite (<= n 0) (as seq.empty (Seq Int)) (seq.++ (seq.unit 0) (zeros (- n 1)))))\n")
+		cb.WriteString("(define-fun-rec ints ((h (Array Loc Int)) (s Slice)) (Seq Int) (ite (<= (s_len s) 0) (as seq.empty (Seq Int)) (seq.++ (ints h (mkslice (s_arr s) (s_off s) (- (s_len s) 1) (s_cap s))) (seq.unit (select h (elm (s_arr s) (+ (s_off s) (- (s_len s) 1))))))))\n")
 		for _, n := range p.specs.FunOrder {
 			f := p.specs.Funs[n]
 			if f.Uninter {
